@@ -76,6 +76,15 @@ pub async fn settle() -> u32 {
             if progress() == p0 && m.blocking_queue_depth() == 0 && helper_threads_blocked() {
                 idle_rounds += 1;
                 if idle_rounds >= 6 {
+                    if std::env::var("HARNESS_SELFCHECK").is_ok() {
+                        let _ = tokio::task::spawn_blocking(|| std::thread::sleep(Duration::from_millis(30))).await;
+                        for _ in 0..5 {
+                            tokio::task::yield_now().await;
+                        }
+                        if progress() != p0 {
+                            eprintln!("FALSE-QUIESCENCE: progress moved {} -> {} after the decision; threads: {:?}", p0, progress(), thread_states());
+                        }
+                    }
                     return n;
                 }
             } else {
@@ -133,6 +142,20 @@ impl Future for RealTick {
         }
         std::task::Poll::Pending
     }
+}
+
+fn thread_states() -> Vec<(String, char)> {
+    let mut v = Vec::new();
+    if let Ok(rd) = std::fs::read_dir("/proc/self/task") {
+        for e in rd.flatten() {
+            if let Ok(s) = std::fs::read_to_string(e.path().join("stat")) {
+                if let (Some(l), Some(r)) = (s.find('('), s.rfind(')')) {
+                    v.push((s[l + 1..r].to_string(), s[r + 1..].trim_start().chars().next().unwrap_or('?')));
+                }
+            }
+        }
+    }
+    v
 }
 
 /// True if every other thread of this shard (helper threads of the blocking pool, including ones that are
